@@ -90,7 +90,9 @@ def rule_result_fields(ctx, rep):
     c = ctor[0]
     loops = [n for n in walk_no_nested(fn.node) if isinstance(n, ast.For)]
     var = loops[0].target.id if loops and isinstance(loops[0].target, ast.Name) else "codemod"
-    kw = {k.arg: k.value for k in c.keywords}
+    from ..derive import deep_expand
+
+    kw = {k.arg: deep_expand(ctx, fn, k.value) for k in c.keywords}
     want_attr = {"codemod": "id", "summary": "summary", "references": "references", "detectionTool": "detection_tool"}
     for field, attr in want_attr.items():
         v = kw.get(field)
@@ -101,7 +103,7 @@ def rule_result_fields(ctx, rep):
         v = kw.get(field)
         ve = r.expand(v) if v is not None else None
         calls = [x for x in ast.walk(ve) if isinstance(x, ast.Call) and last_attr(x.func) == getter] if ve is not None else []
-        ok = bool(calls) and all(x.args and unparse(x.args[0]) == f"{var}.id" for x in calls)
+        ok = bool(calls) and all((x.args or x.keywords) and unparse((x.args or [x.keywords[0].value])[0]) == f"{var}.id" for x in calls)
         rep.check("R-RESULT-FIELDS", fn.qname, fn.loc(c), ok, field, f"Result.{field} is not built from self.{getter}({var}.id)")
     v = kw.get("description")
     ok = v is not None and var in names_in(v)
